@@ -62,6 +62,10 @@ def gconv(api, rng, alpha, nonempty_prefix):
                 tuple(rstr(rng, alpha, 1, 5) for _ in range(rng.randint(1, 2))) if rng.random() < 0.45 else (),
                 rstr(rng, alpha, 0, 6) if rng.random() < 0.5 else None,
             ))
+        if rng.random() < 0.1 and len(recs) >= 2 and recs[0].prefix:
+            # a URI prefix that looks like a compact IRI over another record's prefix ("obo:GO_" next to the prefix "obo"):
+            # written verbatim, it must be read verbatim (seed C14-D: a reader that expands such values)
+            recs[1] = recs[1]._replace(uri_prefix=recs[0].prefix + ":" + rstr(rng, alpha, 0, 3))
         if rng.random() < 0.1 and recs:
             # two records whose canonical prefixes differ only by letter case (GO / go, Straße / STRASSE): different
             # strings, different records - every written format keeps both (seed C14-U: an export keyed on casefold())
